@@ -13,14 +13,24 @@ From Coq Require Import List NArith ZArith Bool String.
 From Atlas Require Import Base.Bytes Lex.LexModel Lex.ClosedModel Lex.FmtModel Lex.QuoteModel Lex.QuoteProofs Lex.ClosedNLModel Lex.ClosedProofs Lex.FmtProofs Lex.FmtGooseProofs Lex.FmtHyp Lex.FmtImportModel Lex.FmtImportProofs Lex.ClosedBridgeModel Lex.ClosedBridgeProofs Lex.FmtBridgeForms Lex.ClosedBeginModel Lex.FmtBeginProofs Lex.FmtRefuted gen.Gen_ScanOpts.
 Import ListNotations.
 
-(** Full statement 3 (every identifier the builder quotes is a closed token) is FALSE of the
-    faithful model and of the real code: Builder.Ident does not escape the closing quote byte.
-    Witness: PostgreSQL table named a-quote-semicolon-b; the file cannot be read back. *)
-Theorem C07_ident_refuted :
-  exists p, roundtrip FAtlas opts_postgres [] p <> planned opts_postgres semi p
-            /\ existsb (fun c => negb (scan_closed opts_postgres semi (c_cmd c))) (p_changes p) = true.
-Proof. exists w_ident_plan. destruct ident_refuted as [H1 H2]. split; [exact H1|]. vm_compute. reflexivity. Qed.
-Print Assumptions C07_ident_refuted.
+(** Statement 3 — every identifier the builder quotes is a closed token.  It was FALSE of the tree
+    before fix C16-ident-double-quote-char (Builder.Ident wrote the name as is: [raw_ident]); the
+    repaired Builder.Ident writes a quote byte inside the name twice and the statement holds for
+    EVERY name: for the scanners without backslash escapes (generic, PostgreSQL, SQLite)
+    unconditionally, for the MySQL scanner when the name has no backslash (the scanner applies
+    backslash escapes inside back-quoted identifiers: still open, C07_quote_refuted). *)
+Theorem C07_ident_closed : forall q s, is_quote q = true -> s <> [] ->
+  quoted_token false (ident q q s) = true
+  /\ (~ In 92%N s -> quoted_token true (ident q q s) = true).
+Proof.
+  intros q s Hq Hs. split; [exact (ident_closed q s Hq Hs)|exact (ident_closed_esc q s Hq Hs)].
+Qed.
+Print Assumptions C07_ident_closed.
+Example C07_ident_closed_nonvacuous :
+  ident 34 34 (bs "a"";b"%string) = bs """a"""";b"""%string
+  /\ roundtrip FAtlas opts_postgres [] w_ident_plan = planned opts_postgres semi w_ident_plan
+  /\ scan_closed opts_postgres semi (bs "CREATE TABLE "%string ++ raw_ident 34 34 w_ident ++ bs " (""c"" integer)"%string) = false.
+Proof. destruct ident_repaired as (H1 & _ & H3). split; [vm_compute; reflexivity|]. split; assumption. Qed.
 
 (** Statement 4b: the sqltool readers other than Liquibase's scan with the generic options; a MySQL
     comment with a double quote is strconv.Quote-d with a backslash that only the MySQL scanner
@@ -48,18 +58,21 @@ Proof.
 Qed.
 Print Assumptions C07_comment_newline_refuted.
 
-(** the Goose / DBMate readers drop every line containing Down / down (ungrouped alternation in
-    reGoosePragma / reDBMatePragma): closed commands vanish. *)
-Theorem C07_goose_dbmate_line_filter_refuted :
-  (exists p, forallb (fun c => scan_closed opts_generic semi (c_cmd c)) (p_changes p) = true
-             /\ List.length (p_changes p) = 2%nat /\ roundtrip FGoose opts_postgres [] p = Some [bs "SELECT 1;"%string])
-  /\ (exists p, forallb (fun c => scan_closed opts_generic semi (c_cmd c)) (p_changes p) = true
-             /\ List.length (p_changes p) = 2%nat /\ roundtrip FDBMate opts_postgres [] p = Some [bs "SELECT 1;"%string]).
-Proof.
-  destruct goose_dbmate_line_filter_refuted as (H1 & H2 & _).
-  split; [exists w_goose_plan | exists w_dbmate_plan]; (split; [vm_compute; reflexivity|split; [reflexivity|assumption]]).
-Qed.
-Print Assumptions C07_goose_dbmate_line_filter_refuted.
+(** the Goose / DBMate pragma patterns (repaired, C07-pragma-regexp-grouping): grouped and anchored,
+    they match only lines that START with a pragma — a line is taken for a pragma only if it
+    starts with "-- +goose " / "-- migrate:"; commands containing Down / down are read back (with
+    the ungrouped patterns of the tree before the fix they vanished). *)
+Theorem C07_pragma_patterns_anchored : forall line,
+  (re_goose_pragma line = true -> has_prefix line S_GOOSE = true)
+  /\ (re_dbmate_pragma line = true -> has_prefix line S_DBMATE = true).
+Proof. exact pragma_anchored. Qed.
+Print Assumptions C07_pragma_patterns_anchored.
+Example C07_pragma_patterns_nonvacuous :
+  roundtrip FGoose opts_postgres [] w_goose_plan = planned opts_generic semi w_goose_plan
+  /\ roundtrip FDBMate opts_postgres [] w_dbmate_plan = planned opts_generic semi w_dbmate_plan
+  /\ re_goose_pragma_ungrouped (bs "CREATE TABLE ""CountDown"" (""c"" integer);"%string) = true
+  /\ re_dbmate_pragma_ungrouped (bs "CREATE TABLE ""downloads"" (""c"" integer);"%string) = true.
+Proof. destruct goose_dbmate_word_repaired as (H1 & H2 & H3 & H4 & _). repeat split; assumption. Qed.
 
 (** Liquibase: the empty plan is read as one statement (the header line has no newline after it,
     and the scanner does not treat an unterminated "--" as a comment).  The second Liquibase
@@ -101,8 +114,11 @@ Print Assumptions C07_quote_refuted.
     EVERY input string ([quoted_token esc tok]: walking the token from its first byte with the
     scanner's quote skipping ends outside every quote exactly at the end of the token, whatever
     follows; [esc] = the scanner's BackslashEscapes):
-    - PostgreSQL quote and sqlx.SingleQuote (escaping branch) for the scanners without backslash
-      escapes (generic, PostgreSQL, SQLite);
+    - PostgreSQL quote and sqlx.SingleQuote for the scanners without backslash escapes (generic,
+      PostgreSQL, SQLite): raw inputs, and inputs already quoted with the double quote (legacy SQLite defaults:
+      unquoted by strconv.Unquote — any function [unq] — and re-quoted with the apostrophe doubled);
+      inputs already quoted with ' are passed through unchanged (clause 4; closed exactly when the
+      input was: C07_quote_refuted has the input IsQuoted wrongly accepts);
     - MySQL quote = strconv.Quote for the MySQL scanner, for every set [np] of non-printable runes.
     The pass-through branch (input already quoted according to IsQuoted) and formatValues are
     refuted above (C07_quote_refuted). *)
@@ -110,14 +126,19 @@ Theorem C07_quote_closed :
   (forall s, is_quoted s [39%N] = false -> lit_closed opts_postgres (pg_quote s) = true
                                           /\ lit_closed opts_generic (pg_quote s) = true
                                           /\ lit_closed opts_sqlite (pg_quote s) = true)
-  /\ (forall s t, is_quoted s [39%N] = false -> single_quote s = Some t ->
+  /\ (forall unq s t, is_quoted s [39%N] = false -> single_quote unq s = Some t ->
                   lit_closed opts_sqlite t = true /\ lit_closed opts_generic t = true)
+  /\ (forall unq s v, is_quoted s [39%N] = false -> is_quoted s [34%N] = true -> unq s = Some v ->
+                  single_quote unq s = Some ([39%N] ++ double_sq v ++ [39%N]))
+  /\ (forall unq s, is_quoted s [39%N] = true -> single_quote unq s = Some s)
   /\ (forall np s, is_quoted s [34%N; 39%N] = false -> lit_closed opts_mysql (mysql_quote np s) = true)
   /\ (forall np s, lit_closed opts_mysql (go_quote np s) = true).
 Proof.
-  split; [|split; [|split]].
+  split; [|split; [|split; [|split; [|split]]]].
   - intros s H. pose proof (pg_quote_closed s H) as P. repeat split; exact P.
-  - intros s t H1 H2. pose proof (single_quote_closed s t H1 H2) as P. split; exact P.
+  - intros unq s t H1 H2. pose proof (single_quote_closed unq s t H1 H2) as P. split; exact P.
+  - intros unq s v H1 H2 H3. unfold single_quote. rewrite H1, H2, H3. reflexivity.
+  - intros unq s H. exact (single_quote_passthrough unq s H).
   - intros np s H. exact (mysql_quote_closed np s H).
   - intros np s. exact (go_quote_closed np s).
 Qed.
@@ -134,24 +155,22 @@ Theorem C07_quote_closed_backslash : forall s,
 Proof. exact sq_wrap_closed_noback. Qed.
 Print Assumptions C07_quote_closed_backslash.
 
-(** Statement 3 (partial: the exact characterisation needs a side condition) — Builder.Ident:
-    a name without the closing quote byte is a closed token; in general (names with no OTHER quote
-    byte) the token is closed iff every maximal run of the quote byte in the name has even length
-    (the name happens to be correctly doubled).  Missing for the unconditional iff: names mixing
-    several quote characters, where the scanner re-synchronises by accident. *)
-Theorem C07_ident_closed_partial : forall q s, is_quote q = true -> s <> [] ->
-  (~ In q s -> quoted_token false (ident q q s) = true)
+(** the spelling before the fix ([raw_ident]: the name as is): closed when the name lacks the quote
+    byte; for names with no OTHER quote byte, closed iff every maximal run of the quote byte has
+    even length.  Kept as the record of the repaired defect. *)
+Theorem C07_raw_ident_spelling : forall q s, is_quote q = true -> s <> [] ->
+  (~ In q s -> quoted_token false (raw_ident q q s) = true)
   /\ ((forall b, In b s -> is_quote b = true -> b = q) ->
-      (quoted_token false (ident q q s) = true <-> even_runs q s = true)).
+      (quoted_token false (raw_ident q q s) = true <-> even_runs q s = true)).
 Proof.
   intros q s Hq Hs. split.
   - exact (ident_closed_notin q s Hq Hs).
   - exact (ident_closed_iff q s Hq Hs).
 Qed.
-Print Assumptions C07_ident_closed_partial.
-Example C07_ident_closed_partial_nonvacuous :
-  quoted_token false (ident 34 34 (bs "users"%string)) = true
-  /\ quoted_token false (ident 34 34 (bs "a"";b"%string)) = false.
+Print Assumptions C07_raw_ident_spelling.
+Example C07_raw_ident_spelling_nonvacuous :
+  quoted_token false (raw_ident 34 34 (bs "users"%string)) = true
+  /\ quoted_token false (raw_ident 34 34 (bs "a"";b"%string)) = false.
 Proof. vm_compute. split; reflexivity. Qed.
 
 (** Statement 1 — C07_roundtrip.  Full statement: for each formatter F of the six, each scanner
@@ -253,10 +272,10 @@ Qed.
 Print Assumptions C07_goose_dbmate_reader_except.
 Example C07_goose_dbmate_reader_nonvacuous :
   dbmate_ok (tool_up ex_tool_plan) = true
-  /\ dbmate_ok (tool_up w_dbmate_plan) = false
+  /\ dbmate_ok (tool_up w_dbmate_plan) = true
   /\ forallb (fun c => goose_change_ok c && comment_ok (c_comment c)
                       && scan_closed_nl opts_generic GOOSE_DELIM (c_cmd c ++ [59%N])) (p_changes ex_tool_plan) = true
-  /\ forallb goose_change_ok (p_changes w_goose_plan) = false
+  /\ forallb goose_change_ok (p_changes w_goose_plan) = true
   /\ roundtrip FGoose opts_postgres [] ex_tool_plan = planned opts_generic semi ex_tool_plan.
 Proof. repeat split; vm_compute; reflexivity. Qed.
 
@@ -292,7 +311,8 @@ Example C07_roundtrip_nonvacuous :
   forallb (fun F => roundtrip_hyp F opts_postgres (bs "20240101000000"%string) ex_tool_plan)
           [FAtlas; FGolangMigrate; FGoose; FFlyway; FLiquibase; FDBMate] = true
   /\ roundtrip_hyp FAtlas opts_mysql [] (ex_plan [10;10]%N) = true
-  /\ roundtrip_hyp FGoose opts_postgres [] w_goose_plan = false.
+  /\ roundtrip_hyp FGoose opts_postgres [] w_goose_plan = true
+  /\ roundtrip_hyp FGoose opts_postgres [] (plan1 [("SELECT 'a;" ++ nl ++ "b'", "")]%string) = false.
 Proof. repeat split; vm_compute; reflexivity. Qed.
 
 (** Import (cmd/atlas migrateImportRun, Lex/FmtImportModel.v — compared with the real CLI on every
@@ -346,16 +366,16 @@ Proof. vm_compute. reflexivity. Qed.
     assembled, as sqlx.Builder does, from fixed text of inert bytes without a BEGIN word, quoted
     tokens, and balanced parentheses is closed ([skel_ok] decidable) — and, instantiated with the
     quoting theorems, for two statement forms with EVERY name and EVERY comment text:
-      PostgreSQL  COMMENT ON TABLE "<name>" IS '<text>'      (name without the double quote)
-      MySQL       ALTER TABLE `<name>` COMMENT "<text>"       (name without back-quote and backslash).
+      PostgreSQL  COMMENT ON TABLE "<name>" IS '<text>'      (every name, since the Ident fix)
+      MySQL       ALTER TABLE `<name>` COMMENT "<text>"       (name without backslash).
     Missing: that each statement form of the MySQL/PostgreSQL/SQLite planners is such a skeleton (the
     planners are not modelled here); measured instead on every run: the extracted [scan_closed]
     is evaluated on every real planner Cmd and the oracle class closed-but-not-roundtrip is armed. *)
 Theorem C07_bridge_partial :
   (forall o ps, skel_ok o ps = true -> scan_closed o delimiter (render ps) = true)
-  /\ (forall name text, name <> [] -> ~ In 34%N name -> is_quoted text [39%N] = false ->
+  /\ (forall name text, name <> [] -> is_quoted text [39%N] = false ->
         scan_closed opts_postgres delimiter (render (pg_comment_on_table name text)) = true)
-  /\ (forall np name text, name <> [] -> ~ In 96%N name -> ~ In 92%N name -> is_quoted text [34%N; 39%N] = false ->
+  /\ (forall np name text, name <> [] -> ~ In 92%N name -> is_quoted text [34%N; 39%N] = false ->
         scan_closed opts_mysql delimiter (render (mysql_alter_comment np name text)) = true).
 Proof.
   split; [exact skel_closed|]. split; [exact pg_comment_on_table_closed|exact mysql_alter_comment_closed].
@@ -394,30 +414,18 @@ Example C07_import_dir_nonvacuous :
   /\ import_source_ok FGolangMigrate (bs ("-- c" ++ nl ++ "CREATE TABLE ta (a int);" ++ nl)%string) = true.
 Proof. repeat split; vm_compute; reflexivity. Qed.
 
-(** bufio.Scanner's 64 KiB token limit (MaxScanTokenSize): a command written on one line of 65536
-    bytes or more — a large INSERT, a wide CREATE TABLE without indentation — silently ends the
-    Goose and DBMate reader loops; the statements from that line on are lost, no error is returned
-    (sc.Err() is never checked).  For EVERY such line [long]: the up section
-    "SELECT 1;\n" long "\nSELECT 2;\n" is read as the single statement "SELECT 1;".
-    (This is why [dbmate_ok] / [goose_change_ok] contain [short].) *)
-Theorem C07_long_line_refuted : forall long,
-  ~ In 10%N long -> (MAX_LINE + 1 <= N.of_nat (List.length long))%N ->
+(** bufio.Scanner's 64 KiB token limit (repaired, C07-sqltool-scanner-buffer: the readers size the
+    buffer to the file and report sc.Err()): a line of ANY length is read — for every [long]
+    (no newline, no carriage return, not itself a pragma line) the up section
+    "SELECT 1;\n" long "\nSELECT 2;\n" is handed to the scanner unchanged.  Before the fix a line
+    of 65536 bytes or more silently ended the Goose/DBMate loops ([dbmate_ok] / [goose_change_ok]
+    carried a [short] condition, now gone). *)
+Theorem C07_long_line_repaired : forall long,
+  ~ In 10%N long -> ~ In 13%N long -> dbmate_line_ok long = true ->
   let up := bs ("SELECT 1;" ++ nl)%string ++ long ++ bs (nl ++ "SELECT 2;" ++ nl)%string in
-  texts (of_scan (Stmts (dbmate_text (S_DBMATE_UP ++ up ++ S_DBMATE_DOWN)))) = Some [bs "SELECT 1;"%string]
-  /\ (exists t, goose_text (S_GOOSE_UP ++ up ++ S_GOOSE_DOWN) = Some t
-                /\ texts (of_scan (Stmts t)) = Some [bs "SELECT 1;"%string]).
-Proof.
-  intros long Hn Hl. destruct (long_line_refuted long Hn Hl) as [H1 H2]. cbv zeta. split.
-  - change (bs ("SELECT 1;" ++ nl)%string) with [83;69;76;69;67;84;32;49;59;10]%N.
-    change (bs (nl ++ "SELECT 2;" ++ nl)%string) with [10;83;69;76;69;67;84;32;50;59;10]%N.
-    rewrite H1. vm_compute. reflexivity.
-  - eexists. split.
-    + change (bs ("SELECT 1;" ++ nl)%string) with [83;69;76;69;67;84;32;49;59;10]%N.
-      change (bs (nl ++ "SELECT 2;" ++ nl)%string) with [10;83;69;76;69;67;84;32;50;59;10]%N.
-      exact H2.
-    + vm_compute. reflexivity.
-Qed.
-Print Assumptions C07_long_line_refuted.
+  dbmate_text (S_DBMATE_UP ++ up ++ S_DBMATE_DOWN) = up.
+Proof. exact long_line_repaired. Qed.
+Print Assumptions C07_long_line_repaired.
 
 (** a first comment that reads as the [atlas:delimiter] directive (why the sqltool round trips require
     [comment_ok2]): the golang-migrate / flyway / dbmate files are read as ONE statement. *)
@@ -459,3 +467,12 @@ Example C07_roundtrip_atlas_begin_nonvacuous :
   /\ roundtrip FAtlas opts_mysql [] ex_trigger_plan = planned opts_mysql semi ex_trigger_plan
   /\ roundtrip FGolangMigrate opts_mysql [] ex_trigger_plan <> planned opts_generic semi ex_trigger_plan.
 Proof. repeat split; vm_compute; try reflexivity; discriminate. Qed.
+
+(** DBMate directives with options (repaired, C07-dbmate-directive-options): the direction is the
+    first field after "-- migrate:"; before the fix "-- migrate:up transaction:false" was not
+    recognised and the file was read as empty. *)
+Theorem C07_dbmate_options_repaired :
+  texts (read FDBMate opts_generic w_dbmate_options)
+  = Some [bs "CREATE TABLE t1 (a int);"%string; bs "CREATE TABLE t2 (a int);"%string].
+Proof. exact dbmate_options_repaired. Qed.
+Print Assumptions C07_dbmate_options_repaired.
